@@ -78,6 +78,7 @@ func init() {
 		ir.Extra["declen"] = BLen(B64D("std", s))
 		return s
 	}
+	intrinsics["vB64Dec"] = func(in *Interp, fn *ssa.Function, a []Value) Value { return B64D("std", termArg(in, a[0])) }
 	intrinsics["vB64"] = func(in *Interp, fn *ssa.Function, a []Value) Value {
 		return in.b64Encode("std", in.stringOfBytes(a[0].(*SliceV)))
 	}
